@@ -192,14 +192,14 @@ func genC14(g *G, n int, out io.Writer) {
 			c.Nested = true
 		} else if traced {
 			decl := "      - propertyConstraints:\n          ex.p0:\n            pattern: ^zzz$\n"
-			rego := "      - rego: |\n          kid := find with data.link as $node[\"" + NS + "kid\"]\n          $traceNode = kid\n          $result = false\n"
+			rego := "      - rego: |\n          kid := find with data.link as $node[\"" + NS + "kid\"]\n          " + traceBinding(i+i/6) + "\n          $result = false\n"
 			body := "    or:\n" + decl + rego
 			if g.coin(0.5) {
 				body = "    or:\n" + rego + decl
 			}
 			if g.coin(0.3) {
 				// the same two constraints in one failure branch through a conditional: if (pattern holds is false ...) -> not(A) or B
-				body = "    if:\n      not:\n        propertyConstraints:\n          ex.p0:\n            pattern: ^zzz$\n    then:\n      rego: |\n        kid := find with data.link as $node[\"" + NS + "kid\"]\n        $traceNode = kid\n        $result = false\n"
+				body = "    if:\n      not:\n        propertyConstraints:\n          ex.p0:\n            pattern: ^zzz$\n    then:\n      rego: |\n        kid := find with data.link as $node[\"" + NS + "kid\"]\n        " + traceBinding(i+i/6) + "\n        $result = false\n"
 			}
 			c.Profile = "profile: C14\nprefixes:\n  ex: " + NS + "\nviolation:\n  - v\nvalidations:\n  v:\n    targetClass: ex.T\n    message: m\n" + body
 		}
@@ -235,4 +235,10 @@ func withLexical(g *G, data string, ids []string, frac float64) string {
 	nodes = append(nodes, map[string]any{"@id": NodeNS + "srcinfo", "@type": []string{DOC + "BaseUnitSourceInformation"}, DOC + "rootLocation": "file:///root.raml"})
 	b, _ := json.Marshal(nodes)
 	return string(b)
+}
+
+// traceBinding: the ways embedded Rego can bind the node its trace is about - Rego binds by unification, on either side of `=`,
+// through `:=`, through membership
+func traceBinding(i int) string {
+	return []string{"$traceNode = kid", "kid = $traceNode", "$traceNode := kid", "[$traceNode, _] = [kid, 1]", "some $traceNode in [kid]", "[kid][_] = $traceNode"}[i%6]
 }
